@@ -666,7 +666,8 @@ def schedule_recipe(draw, tier="quick", kernel=None):
         prod *= b
     tags = ["fam:direct"]
     operands = []
-    wmode = draw(st.sampled_from(["default", "uniform", "any", "any"]))
+    # the xdma extensions are selected by exact kernel types (get_template raises for anything else)
+    wmode = "default" if kernel.startswith("xdma") else draw(st.sampled_from(["default", "uniform", "any", "any"]))
     types = draw(_widths(kernel, wmode))
     tags.append(f"widths:{wmode}")
     slack_rows = []
